@@ -101,6 +101,16 @@ CLAIMED: dict[str, tuple[str, str, str, str]] = {
             "not shift; line-scoped forms are not generated for file-level linters nor inside DRY blocks; "
             "`prefix.*` for rule ids without a sub-id carries no verdict.",
             TECH),
+    "C15": ("DESIGN.md §5 C15",
+            "spec/Languages.tla holds the extension/shebang -> language function, command -> linter ownership "
+            "and linter -> language support tables (meta-invariants checked by TLC) and enumerates all 1 440 "
+            "(extension spelling, shebang, content language, command) cases; each is one fresh-process CLI run "
+            "under four settings of the other linters' sections on a project that also contains an "
+            "extensionless python-shebang script and an extensionless non-script; LanguagesTrace.tla judges "
+            "ForeignRule / WrongLanguage / UnknownTypeAnalysed / ExtensionCase / OtherSectionsMatter.",
+            "Language-support table taken from the linter docs; a shebang inside a file WITH an unknown "
+            "extension is not specified and not generated.",
+            TECH),
 }
 
 REASON_NOT_YET = ("no check registered yet in this build; the TLA+ technique applies (see DESIGN.md §5) "
